@@ -130,16 +130,11 @@ structure Env where
   inter : List Cert
   sigOK : SigOracle
 
-/-- The closure `considerCandidate` of `buildChains`; `rec` is the recursive call. -/
-def consider (E : Env) (rec : Cert → List Cert → St → Res) (c : Cert) (cur : List Cert)
-    (t : CertType) (a : Res) (cand : Cert) : Res :=
-  if cur.any (·.equal cand) then a else
-  let n := a.st.sigChecks + 1
-  let a : Res := { a with st := { a.st with sigChecks := n } }
-  if Gen.sigBudgetExceeded (n : Int) then { a with err := some .limit } else
-  if !checkSignatureFrom E.sigOK c cand then a else
-  if !isValid t cur cand then { a with err := some .invalid } else
-  let a : Res := { a with err := none }
+/-- `*sigChecks++` -/
+def bump (a : Res) : Res := { a with st := { a.st with sigChecks := a.st.sigChecks + 1 } }
+
+/-- The `switch certType` at the end of `considerCandidate` (all checks passed). -/
+def extend (rec : Cert → List Cert → St → Res) (cur : List Cert) (t : CertType) (a : Res) (cand : Cert) : Res :=
   match t with
   | .intermediate =>
     match a.st.cache.lookup cand.id with
@@ -149,6 +144,15 @@ def consider (E : Env) (rec : Cert → List Cert → St → Res) (c : Cert) (cur
       { chains := a.chains ++ r.chains, err := r.err,
         st := { r.st with cache := (cand.id, r.chains) :: r.st.cache } }
   | _ => { a with chains := a.chains ++ [cur ++ [cand]] }
+
+/-- The closure `considerCandidate` of `buildChains`; `rec` is the recursive call. -/
+def consider (E : Env) (rec : Cert → List Cert → St → Res) (c : Cert) (cur : List Cert)
+    (t : CertType) (a : Res) (cand : Cert) : Res :=
+  if cur.any (·.equal cand) then a
+  else if Gen.sigBudgetExceeded ((bump a).st.sigChecks : Int) then { bump a with err := some .limit }
+  else if !checkSignatureFrom E.sigOK c cand then bump a
+  else if !isValid t cur cand then { bump a with err := some .invalid }
+  else extend rec cur t { bump a with err := none } cand
 
 /-- One invocation of `buildChains` (roots first, then intermediates, then the two fix-ups of `err`). -/
 def buildStep (E : Env) (rec : Cert → List Cert → St → Res) (c : Cert) (cur : List Cert) (st : St) : Res :=
